@@ -33,8 +33,8 @@ Theorem C07_content : forall crc_update masked, chunk_law crc_update ->
   sink_flushed (o_final o).
 Proof.
   intros crc masked [Ha Hn] oracle prefill calls fin Hb.
-  pose proof (sink_session_good crc masked Ha Hn oracle prefill calls fin Hb) as (A & B & (rf & C1 & C2 & _) & D & E).
-  pose proof (sink_session_good crc masked Ha Hn [] [] calls fin (Forall_nil _)) as (_ & _ & _ & D' & _).
+  pose proof (sink_session_good crc masked _ _ (uncond_law crc Ha Hn) oracle prefill calls fin (forall_forall_true _) (forall_true _) Hb) as (A & B & (rf & C1 & C2 & _) & D & E & _).
+  pose proof (sink_session_good crc masked _ _ (uncond_law crc Ha Hn) [] [] calls fin (forall_forall_true _) (forall_true _) (Forall_nil _)) as (_ & _ & _ & D' & _).
   cbv zeta. unfold mem_session. rewrite D'. cbn [app]. repeat split; auto.
   - eapply Forall_impl; [|exact A]. intros r ->. reflexivity.
   - exists rf. rewrite C2. auto.
@@ -52,7 +52,7 @@ Theorem C07_count : forall crc_update, chunk_law crc_update ->
   Forall (fun r => N.of_nat (wa_of r) = len prefill + bw_of r) rs.
 Proof.
   intros crc [Ha Hn] oracle fl prefill calls.
-  pose proof (sink_calls_count crc Ha Hn oracle fl prefill calls) as H.
+  pose proof (sink_calls_count crc _ _ (uncond_law crc Ha Hn) oracle fl prefill calls (forall_forall_true _)) as H.
   destruct (run_calls _ _ _ _ _ _ _) as [[rs c] al]. destruct H as [H1 H2]. split; auto.
   eapply Forall_impl; [|exact H2]. intros r [_ H]. exact H.
 Qed.
@@ -69,8 +69,8 @@ Theorem C07_bufwriter : forall crc_update masked, chunk_law crc_update ->
   sink_flushed (b_inner (o_final o)).
 Proof.
   intros crc masked [Ha Hn] cap oracle prefill calls fin Hb.
-  pose proof (buf_session_good crc masked Ha Hn cap oracle prefill calls fin Hb) as (A & B & (rf & C1 & C2 & _) & D & E & F).
-  pose proof (sink_session_good crc masked Ha Hn [] [] calls fin (Forall_nil _)) as (_ & _ & _ & D' & _).
+  pose proof (buf_session_good crc masked _ _ (uncond_law crc Ha Hn) cap oracle prefill calls fin (forall_forall_true _) (forall_true _) Hb) as (A & B & (rf & C1 & C2 & _) & D & E & F & _).
+  pose proof (sink_session_good crc masked _ _ (uncond_law crc Ha Hn) [] [] calls fin (forall_forall_true _) (forall_true _) (Forall_nil _)) as (_ & _ & _ & D' & _).
   cbv zeta. unfold mem_session. rewrite D'. cbn [app]. repeat split; auto.
   - eapply Forall_impl; [|exact A]. intros r ->. reflexivity.
   - exists rf. rewrite C2. auto.
@@ -87,7 +87,7 @@ Theorem C07_count_bufwriter : forall crc_update, chunk_law crc_update ->
   Forall (fun r => N.of_nat (wa_of r) = len prefill + bw_of r) rs.
 Proof.
   intros crc [Ha Hn] cap oracle fl prefill calls.
-  pose proof (buf_calls_count crc Ha Hn cap oracle fl prefill calls) as H.
+  pose proof (buf_calls_count crc _ _ (uncond_law crc Ha Hn) cap oracle fl prefill calls (forall_forall_true _)) as H.
   destruct (run_calls _ _ _ _ _ _ _) as [[rs c] al]. destruct H as [H1 H2]. split; auto.
   eapply Forall_impl; [|exact H2]. intros r [_ H]. exact H.
 Qed.
@@ -126,6 +126,95 @@ Example C07_nonvacuous :
   map bw_of (o_calls o) = [4; 4; 6] /\ s_calls (o_final o) = 10%nat.
 Proof. vm_compute. repeat split; repeat constructor. Qed.
 
+(* ================= end to end with the builder model and the real checksum =================
+   Up to here the per-call chunk lists were GIVEN.  WriterBuilder.session_of computes them from the
+   builder model (Builder.v): new's two header chunks, for every add/insert the chunks that call
+   appends to b_out (b_out is append-only: C07_chunks_append_only), and into_inner's chunks
+   (remaining nodes, root, len, root address).  real_update / real_masked are the model of
+   CheckSummer (Crc.v: crc32c_slice16, summer_masked); the chunking law holds for them on
+   sums < 2^32 and byte buffers (C07_real_checksum_law, from C08), which is all a session uses.
+   Premises (C06): key bytes < 256, values < 2^64, the size budget over the accepted calls,
+   ty < 2^64 - under them the builder model never panics. Rejected calls (DuplicateKey,
+   OutOfOrder) are part of [ops]: they write nothing; st_of is the I/O status only. *)
+Require Import FstV.Builder FstV.Crc FstV.Format FstV.CodecSpec FstV.Fst FstV.Reader FstV.WriterBuilder.
+Require Import FstV.proofs.BuilderInv FstV.proofs.BuilderBasics FstV.proofs.Closed
+               FstV.proofs.WriterBuilderProofs.
+
+Theorem C07_chunks_append_only : forall b o,
+  b_out (fst (apply_op b o)) = rev (chunks_of_call b o) ++ b_out b.
+Proof. exact chunks_of_call_append. Qed.
+
+Theorem C07_real_checksum_law :
+  cond_law real_update (fun s => s < POW32) (fun l => Forall (fun b => b < 256) l).
+Proof. exact real_law. Qed.
+
+(* whatever a benign sink does, it ends up with prefill ++ exactly the bytes the builder model
+   finishes with (b_finish with the real checksum); every call and into_inner return Ok; every
+   bytes_written() is the model's b_count after that call; and those bytes are a well-formed file
+   whose content is exactly the accepted keys and values *)
+Theorem C07_end_to_end : forall ty rows cols ops oracle prefill,
+  Forall op_ok ops -> size_ok_ops (accepted_ops None ops) -> ty < U64 -> Forall benign oracle ->
+  exists bs p,
+    b_finish model_masked_crc32c (fst (Builder.run_calls (new_builder ty rows cols) ops)) = Ok bs /\
+    let '(calls, fin) := session_of ty rows cols ops in
+    let o := real_sink_session oracle FlushOk prefill calls fin in
+    s_data (o_final o) = prefill ++ bs /\
+    Forall (fun r => st_of r = IoOk tt) (o_calls o) /\
+    (exists rf, o_fin o = Some rf /\ st_of rf = IoOk tt) /\
+    sink_flushed (o_final o) /\
+    map bw_of (o_calls o) = counts_of ty rows cols ops /\
+    spec_parse bs = Some p /\ p_version p = 3 /\ p_ty p = ty /\
+    p_len p = len (spec_content None ops []) /\ p_content p = spec_content None ops [] /\
+    wf_fst_b bs = true.
+Proof. intros. now apply end_to_end_sink. Qed.
+
+(* the same behind a BufWriter of any capacity *)
+Theorem C07_end_to_end_bufwriter : forall ty rows cols ops cap oracle prefill,
+  Forall op_ok ops -> size_ok_ops (accepted_ops None ops) -> ty < U64 -> Forall benign oracle ->
+  exists bs,
+    b_finish model_masked_crc32c (fst (Builder.run_calls (new_builder ty rows cols) ops)) = Ok bs /\
+    let '(calls, fin) := session_of ty rows cols ops in
+    let o := real_buf_session cap oracle FlushOk prefill calls fin in
+    s_data (b_inner (o_final o)) = prefill ++ bs /\ b_buf (o_final o) = [] /\
+    Forall (fun r => st_of r = IoOk tt) (o_calls o) /\
+    (exists rf, o_fin o = Some rf /\ st_of rf = IoOk tt) /\
+    map bw_of (o_calls o) = counts_of ty rows cols ops.
+Proof. intros. now apply end_to_end_buf. Qed.
+
+(* maps: the sink holds exactly build_map's bytes, and (Closed.built_map_answers) every reader
+   operation on them answers like the map *)
+Theorem C07_sink_content_is_the_map : forall ty rows cols kvs oracle prefill,
+  input_ok kvs -> ty < U64 -> Forall benign oracle ->
+  let '(calls, fin) := session_of ty rows cols (ins_ops kvs) in
+  let o := real_sink_session oracle FlushOk prefill calls fin in
+  exists bs,
+    s_data (o_final o) = prefill ++ bs /\
+    build_map model_masked_crc32c ty rows cols kvs = Ok bs /\
+    map bw_of (o_calls o) = counts_of ty rows cols (ins_ops kvs) /\
+    spec_read bs = Some (3, ty, kvs) /\
+    api_stream bs = Ok kvs /\ api_len bs = len kvs /\
+    (forall k, Forall (fun b => b < 256) k ->
+       api_get bs k = Ok (lookup kvs k) /\
+       api_contains bs k = Ok (match lookup kvs k with Some _ => true | None => false end)).
+Proof. exact sink_content_is_the_map. Qed.
+
+(* non-vacuity: a session with a rejected call in the middle. The premises hold, the computed
+   session has an empty chunk list for the rejected call, its bytes are the body of the finished
+   file, and the counters are the model's.  (The checksum is left out of the computation: the CRC
+   model recomputes its tables on every call under vm_compute.) *)
+Example C07_end_to_end_nonvacuous :
+  let ops := [OpInsert [98] 1; OpInsert [97] 2; OpInsert [98; 99] 4] in
+  (Forall op_ok ops /\ size_ok_ops (accepted_ops None ops)) /\
+  let '(calls, fin) := session_of 0 4 2 ops in
+  length calls = 4%nat /\ nth 2 calls [[0]] = [] /\ length fin = 12%nat /\
+  b_finish (fun _ => 0) (fst (Builder.run_calls (new_builder 0 4 2) ops)) =
+    Ok (sess_bytes calls fin ++ [0; 0; 0; 0]) /\
+  cum_lens 0 calls = counts_of 0 4 2 ops /\ counts_of 0 4 2 ops = [16; 16; 16; 16].
+Proof.
+  cbv zeta. split; [split; [repeat constructor|reflexivity]|].
+  vm_compute. repeat split.
+Qed.
+
 Check C07_content : forall crc_update masked, chunk_law crc_update ->
   forall oracle prefill calls fin, Forall benign oracle ->
   let o := run_sink_session crc_update masked false oracle FlushOk prefill calls fin in
@@ -145,3 +234,9 @@ Print Assumptions C07_standin_law.
 Print Assumptions C07_old_behaviour_refuted.
 Print Assumptions C07_old_behaviour_refuted_interrupted.
 Print Assumptions C07_nonvacuous.
+Print Assumptions C07_chunks_append_only.
+Print Assumptions C07_real_checksum_law.
+Print Assumptions C07_end_to_end.
+Print Assumptions C07_end_to_end_bufwriter.
+Print Assumptions C07_sink_content_is_the_map.
+Print Assumptions C07_end_to_end_nonvacuous.
